@@ -24,6 +24,10 @@ type ExprCfg struct {
 	Chains        bool   // F.Mk(k).X style call chains
 	NoPtrNum      bool   // exclude pointer-to-number reads
 	SmallLits     bool   // literals from the small domain only
+	// LinearStr keeps string values from growing faster than linearly over repeated firings:
+	// at most one string location is read per generated string expression and the
+	// multiplying functions (Repeat, Replace, Cat) are not used.
+	LinearStr bool
 }
 
 // XG is an expression generator bound to a rapid test.
@@ -32,7 +36,14 @@ type XG struct {
 	C ExprCfg
 	// Feature counters for the evidence.
 	Feat map[string]int
+	// strReads counts string locations read since the last ResetStrReads (LinearStr).
+	strReads int
 }
+
+// ResetStrReads starts a new string expression for the LinearStr budget.
+func (g *XG) ResetStrReads() { g.strReads = 0 }
+
+func (g *XG) strPathAllowed() bool { return !g.C.LinearStr || g.strReads == 0 }
 
 // NewXG makes a generator.
 func NewXG(t *rapid.T, c ExprCfg) *XG { return &XG{T: t, C: c, Feat: map[string]int{}} }
@@ -398,6 +409,9 @@ func (g *XG) Float(depth int) (gast.Expr, FloatInfo) {
 // strAtom generates a string-valued atom (usable as a method receiver).
 func (g *XG) strAtom(depth int) gast.Expr {
 	paths := g.pathsOf(gast.TStr, nil)
+	if !g.strPathAllowed() {
+		paths = nil
+	}
 	n := 2
 	if len(paths) > 0 {
 		n = 5
@@ -407,10 +421,15 @@ func (g *XG) strAtom(depth int) gast.Expr {
 	case k >= 2:
 		p := paths[g.pick(len(paths), "str_path")]
 		g.feat("read:" + p.Form)
+		g.strReads++
 		return p.Mk()
 	case k == 1 && depth > 0 && g.C.StrFuncs:
 		inner := g.strAtom(depth - 1)
-		switch g.pick(3, "str_chainfn") {
+		nfn := 3
+		if g.C.LinearStr {
+			nfn = 2
+		}
+		switch g.pick(nfn, "str_chainfn") {
 		case 0:
 			return &gast.Call{Recv: inner, Name: "ToUpper"}
 		case 1:
@@ -431,6 +450,9 @@ func (g *XG) Str(depth int) gast.Expr {
 	}
 	alts := []alt{{"lit", 3}}
 	paths := g.pathsOf(gast.TStr, nil)
+	if !g.strPathAllowed() {
+		paths = nil
+	}
 	if len(paths) > 0 {
 		alts = append(alts, alt{"path", 5})
 	}
@@ -443,7 +465,7 @@ func (g *XG) Str(depth int) gast.Expr {
 		if g.C.StrFuncs {
 			alts = append(alts, alt{"func", 3})
 		}
-		if g.C.Recv != "" {
+		if g.C.Recv != "" && !g.C.LinearStr {
 			alts = append(alts, alt{"cat", 1})
 			if g.C.Chains {
 				alts = append(alts, alt{"chain", 1})
@@ -469,6 +491,7 @@ func (g *XG) Str(depth int) gast.Expr {
 	case "path":
 		p := paths[g.pick(len(paths), "str_path")]
 		g.feat("read:" + p.Form)
+		g.strReads++
 		return p.Mk()
 	case "concat":
 		g.feat("concat")
@@ -504,7 +527,11 @@ func (g *XG) Str(depth int) gast.Expr {
 	case "func":
 		g.feat("strfunc")
 		s := g.strAtom(depth - 1)
-		switch g.pick(5, "str_func") {
+		nfn := 5
+		if g.C.LinearStr {
+			nfn = 3
+		}
+		switch g.pick(nfn, "str_func") {
 		case 0:
 			return &gast.Call{Recv: s, Name: "ToUpper"}
 		case 1:
@@ -716,6 +743,18 @@ func (g *XG) arithOnly(e gast.Expr) bool {
 		}
 	}
 	return false
+}
+
+// NoBarePtr wraps a bare pointer-to-number read in "+ 0" (a pointer is a number only inside
+// arithmetic or a comparison).
+func (g *XG) NoBarePtr(e gast.Expr, float bool) gast.Expr {
+	if !g.arithOnly(e) {
+		return e
+	}
+	if float {
+		return &gast.Bin{Op: gast.OpAdd, L: e, R: gast.F(0)}
+	}
+	return &gast.Bin{Op: gast.OpAdd, L: e, R: gast.I(0)}
 }
 
 // OfType generates an expression of the given static type. A bare pointer-to-number read is
